@@ -109,6 +109,23 @@ func genC27(gen *sim.Stream) *c27Stream {
 	switch gen.Draw(3) {
 	case 0:
 		st.Kind = "undefined"
+		if gen.Draw(3) == 0 {
+			// the offending token is the very first byte of its chunk, and the chunk before it
+			// (separated by skipped lines) was reported too: two position look-ups in a row
+			n++
+			if indent != "" {
+				add(indent + "\n") // the end of an inline comment, or blanks: a line of its own
+			}
+			add(fmt.Sprintf("var e%d = undefinedEarlier%d +\n\t1\n", n, n))
+			st.ChunksPrev++
+			st.Items = append(st.Items, "failing-chunk")
+			for k := 1 + gen.Draw(3); k > 0; k-- {
+				add([]string{"\n", "// comment\n", "\n\n"}[gen.Draw(3)])
+			}
+			st.Line, st.Col = line, 1
+			add("undefinedIdent(3)\n")
+			break
+		}
 		pre := indent + "var m = 1 +\n\t\t"
 		add(pre)
 		st.Line, st.Col = line, 3
